@@ -30,7 +30,11 @@ def slices(tier):
     core = spaces.plain_core()
     if tier == "quick":
         # two extra vectors with spe > 0 competing against dup / hgt (the speciation cost must be charged)
-        return [("P4x3/core+2", spaces.shape_pairs(4, 3), core + [(2, 1, 2, 1, 1), (1, 1, 2, 0, 1)])]
+        # and two with a transfer far more expensive than a duplication plus the losses of one lifted node, where a
+        # transfer only pays off by sparing several ancestors at once
+        return [("P4x3/core+4", spaces.shape_pairs(4, 3), core + [(2, 1, 2, 1, 1), (1, 1, 2, 0, 1), (0, 1, 6, 1, 1), (0, 1, 4, 1, 1)]),
+                ("P4x4cat/bighgt", [p for p in spaces.shape_pairs(4, 4, min_obj=4, min_sp=4)],
+                 [(0, 1, 8, 1, 1), (0, 2, 8, 1, 1)])]
     six = [(0, 1, 1, 1, 1), (1, 1, 1, 1, 1), (1, 3, 5, 2, 1), (0, 1, 1, 0, 1), (0, 1, dtl.INF, 1, 1), (2, 1, 0, 1, 1)]
     p54 = [p for p in spaces.shape_pairs(5, 4)]
     p36 = [p for p in spaces.shape_pairs(3, 6, min_sp=5)]
@@ -38,6 +42,8 @@ def slices(tier):
         ("P4x4/grid", spaces.shape_pairs(4, 4), spaces.cv_grid_plain()),
         ("P5x4/six", [p for p in p54 if spaces.shape_leaves(p[0]) == 5], six),
         ("P3x6/core", p36, core),
+        ("P4x4/bighgt", spaces.shape_pairs(4, 4), [(0, 1, 8, 1, 1), (0, 2, 8, 1, 1), (0, 1, 6, 1, 1), (1, 1, 9, 1, 1), (0, 1, 10, 2, 1)]),
+        ("P5x4cat/bighgt", [p for p in p54 if spaces.shape_leaves(p[0]) == 5 and spaces.shape_leaves(p[1]) == 4], [(0, 1, 8, 1, 1)]),
     ]
 
 
@@ -45,7 +51,7 @@ def plan(tier, seed):
     out = []
     for name, pairs, menu in slices(tier):
         for osh, ssh in pairs:
-            out.append({"slice": name, "osh": osh, "ssh": ssh, "menu": menu})
+            out.append({"slice": name, "osh": osh, "ssh": ssh, "menu": menu, "genall": "bighgt" not in name})
     return out
 
 
@@ -143,7 +149,7 @@ def run_shard(shard, tier, seed):
         empty_species = len(set(leafmap.values())) < len(S.leaves)
         lca_m = dtl.lca_mapping(O, S, leafmap)
         valid_keys = {tuple(sorted(m.items())) for m, _ in valid}
-        for gcosts in GENALL_MENU:
+        for gcosts in (GENALL_MENU if shard.get("genall", True) else ()):
             g = check_generate_all(O, S, leafmap, valid_keys, gcosts)
             n_eval += 1
             counters["generate_all_runs"] = counters.get("generate_all_runs", 0) + 1
